@@ -5,6 +5,8 @@ import GqlProofs.Grammar.PrintSchema
 import GqlProofs.Parser.SoundSchemaTop
 import GqlProofs.Parser.FwdSchemaTop
 import GqlProofs.Parser.RetSchema
+import GqlProofs.Grammar.Complete
+import GqlProofs.Parser.CompleteSchemaTop
 /-
   C06 — the schema parser accepts exactly the type-system grammar, faithfully.
 
@@ -13,8 +15,11 @@ import GqlProofs.Parser.RetSchema
   `Print.printSchema` (op `unparses`); plus theorems about the PARSER MODEL
   (`parseSchemaSrc`, `parseSchemas`: ops `ps` / `pss`): the built-in flag, the merge, and
   soundness — every accepted non-empty document without literal-named enum values is derivable
-  and its tree unparses to a canonical form of the input (`C06_parse_sound`, `C06_parse_sound_<nt>`;
-  as for C05 the canonical form is that of a derivation, see the FULL STATEMENT note in C05.lean).
+  and its tree unparses to a canonical form of the input (`C06_parse_sound`, `C06_parse_sound_<nt>`),
+  completeness — every lexable input whose token sequence is derivable is accepted, and the unparse
+  of the tree is the canonical output of EVERY derivation (`C06_parse_complete_canonical`,
+  `C06_parse_complete_<nt>`) — and their consequences `C06_accepts_exactly`, `C06_canonical_unique`,
+  `C06_parse_sound_canonical` (with the recogniser's `canonical`), `C06_accepts_iff_recognises`.
   The tie to the real parser is the check `C06` (harness/internal/props/grammarcheck.go).
 -/
 open Gql Gql.Lexer Gql.Grammar Gql.Parser Gql.Print
@@ -460,6 +465,164 @@ theorem C06_parse_print_directive_definition {dk : Bytes → Kind} (hdk : ∀ d,
     Fwd (parseDirectiveDefinition n d.desc) a (fun y a' => y.erasePos = d.erasePos ∧ a'.σ = σ') :=
   fwd_directiveDefinition hdk d hok n a σ' hs hfol
 
+/-! ### completeness: the schema parser accepts EXACTLY the type-system grammar
+
+  Derivation-driven counterpart of the soundness section (`GqlProofs/Parser/CompleteSchema.lean`,
+  `CompleteSchemaTop.lean`): for every nonterminal of the type-system grammar, a run of its parser
+  program on a stream that starts with a token list the grammar derives (with canonical output
+  `o`) ends live, consumes exactly those tokens, and the unparse of its result is `o`.  What the
+  tokens carry of a description: its value; the kind of the token (String / BlockString) and an
+  empty description are not in the tree, and the canonical form (`canonDescription`) drops them
+  too.  The theorems are about lexable inputs (`tokensOf inp = some ts`). -/
+
+/-- **Completeness.**  If the comment-free token sequence of `inp` is derivable from the
+    type-system document grammar with canonical output `o`, then `ParseSchema` accepts `inp`,
+    with a non-empty document whose unparse is `o` and whose enum values have grammar names. -/
+theorem C06_parse_complete_canonical (src : Nat) (b : Bool) (inp : Bytes) (ts o : List Tok) (htok : tokensOf inp = some ts)
+    (hd : Derives gql (.nt .typeSystemDocument) ts o) :
+    ∃ d, parseSchemaSrc 0 src b inp = .ok d ∧ printSchema d = o ∧
+      (d.schema ≠ [] ∨ d.schemaExt ≠ [] ∨ d.directives ≠ [] ∨ d.definitions ≠ [] ∨ d.extensions ≠ []) ∧ ((∀ x ∈ d.definitions, EnumOK x) ∧ (∀ x ∈ d.extensions, EnumOK x)) := by
+  obtain ⟨d, h1, h2, h3, h4⟩ := parseSchema_complete src b inp ts o htok hd
+  exact ⟨d, h1, h2, h3, h4.2.2.2.1, h4.2.2.2.2⟩
+
+theorem C06_parse_complete (inp : Bytes) (ts : List Tok) (htok : tokensOf inp = some ts)
+    (hd : Derivable gql .typeSystemDocument ts) :
+    ∃ d, parseSchema 0 inp = .ok d ∧
+      (d.schema ≠ [] ∨ d.schemaExt ≠ [] ∨ d.directives ≠ [] ∨ d.definitions ≠ [] ∨ d.extensions ≠ []) ∧ ((∀ x ∈ d.definitions, EnumOK x) ∧ (∀ x ∈ d.extensions, EnumOK x)) := by
+  obtain ⟨o, hd⟩ := hd
+  obtain ⟨d, h1, _, h3, h4⟩ := C06_parse_complete_canonical 0 false inp ts o htok hd
+  exact ⟨d, h1, h3, h4⟩
+
+/-- **The schema parser accepts exactly the type-system grammar**, up to its two recorded
+    leniencies (the empty document, `C06_parse_empty_counterexample`; enum values named `true`,
+    `false`, `null`, `C06_parse_enum_literal_counterexample`): `ParseSchema` returns a non-empty
+    document without such enum values iff the lexer succeeds and the comment-free token sequence
+    is derivable from the type-system document grammar. -/
+theorem C06_accepts_exactly (inp : Bytes) :
+    (∃ d, parseSchema 0 inp = .ok d ∧
+      (d.schema ≠ [] ∨ d.schemaExt ≠ [] ∨ d.directives ≠ [] ∨ d.definitions ≠ [] ∨ d.extensions ≠ []) ∧ ((∀ x ∈ d.definitions, EnumOK x) ∧ (∀ x ∈ d.extensions, EnumOK x))) ↔
+      ∃ ts, tokensOf inp = some ts ∧ Derivable gql .typeSystemDocument ts := by
+  constructor
+  · rintro ⟨d, h, hne, hen⟩
+    obtain ⟨ts, h1, h2, _⟩ := C06_parse_sound inp d h hne hen
+    exact ⟨ts, h1, h2⟩
+  · rintro ⟨ts, h1, h2⟩
+    exact C06_parse_complete inp ts h1 h2
+
+/-- canonical outputs are unique on lexable token sequences -/
+theorem C06_canonical_unique (inp : Bytes) (ts o₁ o₂ : List Tok) (htok : tokensOf inp = some ts)
+    (h1 : Derives gql (.nt .typeSystemDocument) ts o₁) (h2 : Derives gql (.nt .typeSystemDocument) ts o₂) : o₁ = o₂ := by
+  obtain ⟨d1, p1, e1, _⟩ := parseSchema_complete 0 false inp ts o₁ htok h1
+  obtain ⟨d2, p2, e2, _⟩ := parseSchema_complete 0 false inp ts o₂ htok h2
+  rw [p1] at p2
+  cases p2
+  rw [← e1, ← e2]
+
+/-- every derivation of the token sequence of an accepted input has the unparse as its output -/
+theorem C06_parse_faithful (inp : Bytes) (doc : SchemaDoc) (h : parseSchema 0 inp = .ok doc) (ts o : List Tok)
+    (htok : tokensOf inp = some ts) (hd : Derives gql (.nt .typeSystemDocument) ts o) : o = printSchema doc := by
+  obtain ⟨d, p, e, _⟩ := parseSchema_complete 0 false inp ts o htok hd
+  have : parseSchema 0 inp = .ok d := p
+  rw [h] at this
+  cases this
+  exact e.symm
+
+/-! ### the recogniser decides the type-system grammar -/
+
+theorem C06_recognises_complete (ts : List Tok) (h : Derivable gql .typeSystemDocument ts) : isTypeSystem ts = true :=
+  recognises_complete _ ts h
+
+theorem C06_recognises_iff (ts : List Tok) : isTypeSystem ts = true ↔ Derivable gql .typeSystemDocument ts :=
+  recognises_iff _ ts
+
+/-- **`C06_parse_sound` with the recogniser's `canonical`**: for an accepted non-empty document
+    (with no enum value `true`/`false`/`null`) the recogniser returns a canonical form of the
+    token sequence, and it IS the unparse of the tree. -/
+theorem C06_parse_sound_canonical (inp : Bytes) (doc : SchemaDoc) (h : parseSchema 0 inp = .ok doc)
+    (hne : doc.schema ≠ [] ∨ doc.schemaExt ≠ [] ∨ doc.directives ≠ [] ∨ doc.definitions ≠ [] ∨ doc.extensions ≠ [])
+    (henum : ((∀ x ∈ doc.definitions, EnumOK x) ∧ (∀ x ∈ doc.extensions, EnumOK x))) :
+    ∃ ts, tokensOf inp = some ts ∧ canonical gql .typeSystemDocument ts = some (printSchema doc) ∧ WFSchema doc := by
+  obtain ⟨ts, h1, h2, _, h4⟩ := C06_parse_sound inp doc h hne henum
+  obtain ⟨out, ho⟩ := canonical_complete _ ts h2
+  exact ⟨ts, h1, by rw [ho, C06_parse_faithful inp doc h ts out h1 (C06_canonical_sound ts out ho)], h4⟩
+
+/-- **the runtime comparison of the check C06, proved**: `ParseSchema` returns a non-empty document
+    with grammar-named enum values iff the input lexes and the recogniser accepts its tokens -/
+theorem C06_accepts_iff_recognises (inp : Bytes) :
+    (∃ d, parseSchema 0 inp = .ok d ∧
+      (d.schema ≠ [] ∨ d.schemaExt ≠ [] ∨ d.directives ≠ [] ∨ d.definitions ≠ [] ∨ d.extensions ≠ []) ∧ ((∀ x ∈ d.definitions, EnumOK x) ∧ (∀ x ∈ d.extensions, EnumOK x))) ↔
+      ∃ ts, tokensOf inp = some ts ∧ isTypeSystem ts = true := by
+  rw [C06_accepts_exactly]
+  constructor
+  · rintro ⟨ts, h1, h2⟩; exact ⟨ts, h1, C06_recognises_complete ts h2⟩
+  · rintro ⟨ts, h1, h2⟩; exact ⟨ts, h1, (C06_recognises_iff ts).1 h2⟩
+
+/-- the pieces (each: derivable token list at the head of the stream ⇒ the program ends live,
+    consumes it, and the unparse of the result is the canonical output of the derivation) -/
+theorem C06_parse_complete_description (ts o : List Tok) (hd : Derives gql (.opt (.nt .description)) ts o) (a : AS) (σ' : Stream)
+    (hs : Starts a.σ ts σ') (hfol : ts = [] → NoDesc σ') :
+    Fwd parseDescription a (fun d a' => printDesc d = o ∧ a'.σ = σ') := cpl_description ts o hd a σ' hs hfol
+
+theorem C06_parse_complete_implements_interfaces (n : Nat) (ts o : List Tok) (hok : TsOK ts)
+    (hd : Derives gql (.opt (.nt .implementsInterfaces)) ts o) (a : AS) (σ' : Stream) (hs : Starts a.σ ts σ')
+    (hfol : σ'.head.kind ≠ .amp) (hfol0 : ts = [] → NoImplements σ') :
+    Fwd (parseImplementsInterfaces n) a (fun xs a' => printImplements xs = o ∧ a'.σ = σ') :=
+  cpl_implements n ts o hok hd a σ' hs hfol hfol0
+
+theorem C06_parse_complete_union_member_types (n : Nat) (ts o : List Tok) (hok : TsOK ts)
+    (hd : Derives gql (.opt (.nt .unionMemberTypes)) ts o) (a : AS) (σ' : Stream) (hs : Starts a.σ ts σ')
+    (hfol : σ'.head.kind ≠ .pipe) (hfol0 : ts = [] → σ'.head.kind ≠ .equals) :
+    Fwd (parseUnionMemberTypes n) a (fun xs a' => printMembers xs = o ∧ a'.σ = σ') :=
+  cpl_unionMembers n ts o hok hd a σ' hs hfol hfol0
+
+theorem C06_parse_complete_directive_locations (n : Nat) (ts o : List Tok) (hok : TsOK ts)
+    (hd : Derives gql (.nt .directiveLocations) ts o) (a : AS) (σ' : Stream) (hs : Starts a.σ ts σ')
+    (hfol : σ'.head.kind ≠ .pipe) :
+    Fwd (parseDirectiveLocations n) a (fun xs a' => printSep .pipe xs = o ∧ a'.σ = σ') :=
+  cpl_directiveLocations n ts o hok hd a σ' hs hfol
+
+theorem C06_parse_complete_arguments_definition (n : Nat) (ts o : List Tok) (hok : TsOK ts)
+    (hd : Derives gql (.opt (.nt .argumentsDefinition)) ts o) (a : AS) (σ' : Stream) (hs : Starts a.σ ts σ')
+    (habs : ts = [] → σ'.head.kind ≠ .parenL) :
+    Fwd (parseArgumentDefs n) a (fun ys a' => printArgDefs ys = o ∧ a'.σ = σ') := cpl_argDefs n ts o hok hd a σ' hs habs
+
+theorem C06_parse_complete_fields_definition (n : Nat) (ts o : List Tok) (hok : TsOK ts)
+    (hd : Derives gql (.opt (.nt .fieldsDefinition)) ts o) (a : AS) (σ' : Stream) (hs : Starts a.σ ts σ')
+    (habs : ts = [] → σ'.head.kind ≠ .braceL) :
+    Fwd (parseFieldsDefinition n) a (fun ys a' => printBlock printFieldDef ys = o ∧ a'.σ = σ') :=
+  cpl_fieldDefs n ts o hok hd a σ' hs habs
+
+theorem C06_parse_complete_input_fields_definition (n : Nat) (ts o : List Tok) (hok : TsOK ts)
+    (hd : Derives gql (.opt (.nt .inputFieldsDefinition)) ts o) (a : AS) (σ' : Stream) (hs : Starts a.σ ts σ')
+    (habs : ts = [] → σ'.head.kind ≠ .braceL) :
+    Fwd (parseInputFieldsDefinition n) a (fun ys a' => printBlock printInputField ys = o ∧ a'.σ = σ') :=
+  cpl_inputFields n ts o hok hd a σ' hs habs
+
+theorem C06_parse_complete_enum_values_definition (n : Nat) (ts o : List Tok) (hok : TsOK ts)
+    (hd : Derives gql (.opt (.nt .enumValuesDefinition)) ts o) (a : AS) (σ' : Stream) (hs : Starts a.σ ts σ')
+    (habs : ts = [] → σ'.head.kind ≠ .braceL) :
+    Fwd (parseEnumValuesDefinition n) a (fun ys a' => printBlock printEnumVal ys = o ∧
+      (∀ e ∈ ys, notLiteralName e.name) ∧ a'.σ = σ') := cpl_enumVals n ts o hok hd a σ' hs habs
+
+/-- a type definition after its description: `keyword body` -/
+theorem C06_parse_complete_type_definition (n : Nat) (desc : Bytes) (k : DefKind) (tb ob : List Tok) (hok : TsOK tb)
+    (hb : BodyD k tb ob) (a : AS) (σ' : Stream) (hs : Starts a.σ (DefKind.keyword k :: tb) σ') (hfol : FolItem σ') :
+    Fwd (parseTypeSystemDefinition n desc) a (fun y a' => y.desc = desc ∧ y.kind = k ∧ printDefBody y = ob ∧ EnumOK y ∧
+      KeyIn a.σ σ' y.pos.start ∧ a'.σ = σ') := cpl_typeSystemDefinition n desc k tb ob hok hb a σ' hs hfol
+
+/-- the shapes behind `BodyD`: every TypeDefinition / TypeExtension sentence is `Description? keyword body` /
+    `extend keyword body` (with a body that extends something) -/
+theorem C06_type_definition_shape (ts o : List Tok) (h : Derives gql (.nt .typeDefinition) ts o) : ∃ k, DefShape k ts o :=
+  inv_typeDefinition h
+
+theorem C06_type_extension_shape (ts o : List Tok) (h : Derives gql (.nt .typeExtension) ts o) (hok : TsOK ts) :
+    ∃ k, ExtShape k ts o := inv_typeExtension h hok
+
+theorem C06_parse_complete_extension (n : Nat) (doc : SchemaDoc) (ts o : List Tok) (hok : TsOK ts)
+    (hd : Derives gql (.nt .typeSystemExtension) ts o) (a : AS) (σ' : Stream) (hs : Starts a.σ ts σ') (hfol : FolItem σ') :
+    Fwd (parseTypeSystemExtension n doc) a (fun y a' => ∃ it, y = doc.add it ∧ (sItem it).2 = o ∧ it.enumOK ∧
+      KeyIn a.σ σ' (sItem it).1 ∧ a'.σ = σ') := cpl_typeSystemExtension n doc ts o hok hd a σ' hs hfol
+
 #print axioms C06_print_in_grammar
 #print axioms C06_print_canonical
 #print axioms C06_recognise_sound
@@ -497,3 +660,12 @@ theorem C06_parse_print_directive_definition {dk : Bytes → Kind} (hdk : ∀ d,
 #print axioms C06_parse_print_directive_definition
 #print axioms C06_parse_printable
 #print axioms C06_parse_print_parse
+#print axioms C06_parse_complete_canonical
+#print axioms C06_parse_complete
+#print axioms C06_accepts_exactly
+#print axioms C06_canonical_unique
+#print axioms C06_parse_faithful
+#print axioms C06_recognises_iff
+#print axioms C06_parse_sound_canonical
+#print axioms C06_accepts_iff_recognises
+#print axioms C06_parse_complete_extension
